@@ -261,6 +261,51 @@ class TunnelScn(Scenario):
         await step(4, "destroyed")
 
 
+class ExitRaceScn(TunnelScn):
+    """
+    remove_tunnel_delay = 0 (a configuration the library's own tests use): a 1-hop circuit ends at the node that will be unloaded; its
+    very first data packet (which makes the exit open its outside sockets, two awaited steps) is followed by the unload after
+    ``case["gap"]`` virtual seconds plus ``case["iters"]`` loop iterations.
+    """
+
+    name = "exitrace"
+    n_nodes = 3
+    expect_handlers = ()
+
+    def settings(self, node, i):  # noqa: ANN001, ANN201
+        st = tunnel_settings(self.overlay_class(), i, exit_node=True)
+        st.remove_tunnel_delay = 0
+        return st
+
+    async def script(self, c, nodes, step=_nop) -> None:  # noqa: ANN001
+        from ipv8.messaging.interfaces.udp.endpoint import UDPv4Address
+        from ipv8.peer import Peer
+        await self.introduce(nodes)
+        await step(0, "introduced")
+        case = getattr(c, "case", {})
+        x = nodes[case.get("node", 0) % len(nodes)]
+        o = next(n for n in nodes if n is not x)
+        circ = None
+        for _ in range(3):
+            circ = o.call(o.ov.create_circuit, 1, required_exit=Peer(x.my_peer.public_key.key_to_bin(), x.address))
+            await asyncio.sleep(1.0)
+            if circ is not None and circ.state == "READY":
+                break
+        if circ is None or circ.state != "READY":
+            c.probe("exitrace_no_circuit")
+            await step(1, "no circuit")
+            return
+        o.call(o.ov.send_data, circ.hop.address, circ.circuit_id, UDPv4Address("9.9.9.9", 99), ("0.0.0.0", 0), b"d" + b"5:first" + b"e")
+        # exactly the one-way latency later the exit starts opening its sockets
+        await asyncio.sleep(c.net.lat_min + case.get("gap", 0.0))
+        for _ in range(int(case.get("iters", 0))):
+            await asyncio.sleep(0)
+        c.probe("unload_right_behind_first_data_packet")
+        await step(1, "first data packet arriving")
+        await asyncio.sleep(2.0)
+        await step(2, "later")
+
+
 class HiddenScn(TunnelScn):
     name = "hidden"
 
@@ -362,7 +407,7 @@ class IdentityScn(Scenario):
         await step(2, "attested with metadata")
 
 
-SCENARIOS = {s.name: s for s in (BaseCommunityScn(), BroadcastBootstrapScn(), DiscoveryScn(), DHTScn(), DHTDiscoveryScn(), TunnelScn(),
+SCENARIOS = {s.name: s for s in (BaseCommunityScn(), BroadcastBootstrapScn(), ExitRaceScn(), DiscoveryScn(), DHTScn(), DHTDiscoveryScn(), TunnelScn(),
                                  HiddenScn(), PexScn(), AttestationScn(), IdentityScn())}
 
 
